@@ -169,3 +169,35 @@ func H_C08_sender_cache_is_faithful() {
 	af, ef := other.Sender(d)
 	verifAssert((e3 == nil) == (ef == nil) && a3 == af, "lookup-under-another-chain-parameter-is-a-fresh-derivation")
 }
+
+// every v a verifier accepts: v is ANY integer below 2^72 (a bit-vector backed big integer, so that the
+// BitLen / Uint64 / Sub / Div steps of isProtectedV, DeriveSignParam, recover and recoverPlain are
+// decided for all values instead of a boundary table); r and s are fixed valid values. Accepted means
+// v is one of the two legacy values or one of the two values of THIS verifier's chain parameter - a
+// second encoding of an accepted signature (another v recovering the same signer over the same hash)
+// would be a malleable twin.
+//verif:opt unwind=12 budget_s=900 big_bv=1
+func H_C08_every_accepted_v_is_legacy_or_this_chains_parameter() {
+	ps := []int64{1, 29153}
+	pv := ps[verifCase(len(ps))]
+	signer := NewSTDEIP155Signer(big.NewInt(pv))
+	to := common.Address{0x11}
+	d := &txdata{AccountNonce: 1, Price: big.NewInt(1), GasLimit: 21000, Recipient: &to, Amount: big.NewInt(1)}
+	d.V = new(big.Int).SetBytes(verifNondetBytes(9))
+	d.R, d.S = big.NewInt(5), big.NewInt(7)
+	c08Recs = 0
+	_, err := signer.Sender(d)
+	verifReach("returned")
+	if err != nil {
+		return
+	}
+	verifReach("accepted")
+	lo := 2*pv + 35
+	legacy := d.V.Cmp(big.NewInt(27)) == 0 || d.V.Cmp(big.NewInt(28)) == 0
+	prot := d.V.Cmp(big.NewInt(lo)) == 0 || d.V.Cmp(big.NewInt(lo+1)) == 0
+	verifAssert(legacy || prot, "every-accepted-v-is-legacy-or-this-chains-parameter")
+	verifAssert(c08Recs == 1 && len(c08RecSig) == 65 && c08RecSig[64] <= 1, "recovered-once-with-a-recovery-id-of-zero-or-one")
+	if prot && c08Recs == 1 && len(c08RecSig) == 65 {
+		verifAssert(int64(c08RecSig[64]) == d.V.Int64()-lo, "recovery-id-is-v-minus-the-chains-base")
+	}
+}
